@@ -291,8 +291,48 @@ def run_long(rec, tier, seed):
                                       expected=alone[i][0][:4], observed=got[:, pos][0][:4])
                         break
                 rec.observe(subset, nj, rc)
+    # non-default binning parameters: whatever is configured applies to every query of the call, long or short
+    for kw in (dict(n_median_bins=50), dict(n_median_bins=7, n_score_bins=50), dict(n_score_bins=200, n_cache=400), dict(n_target_bins=None, n_median_bins=300)):
+        alone_kw = [torch.stack(list(TT.tomtom([Q], Ts, n_jobs=1, **kw))).numpy()[:, 0] for Q in Qs]
+        for subset in ([0, 1, 2, 3, 4], [1, 4, 2], [2, 3]):
+            for nj in (1, 5):
+                st, res = call(TT.tomtom, [Qs[i] for i in subset], Ts, n_jobs=nj, **kw)
+                rec.case(1, 1)
+                rec.count("traces_validated_against_impl")
+                case = dict(fn="tomtom", query_lengths=[qlens[i] for i in subset], n_jobs=nj, generator="pat(L,k)", kwargs={k: str(v) for k, v in kw.items()})
+                if st != "ok":
+                    rec.violation("tomtom:raises", case, observed=res)
+                    continue
+                got = torch.stack(list(res)).numpy()
+                for pos, i in enumerate(subset):
+                    if not same(got[:, pos], alone_kw[i]):
+                        rec.violation("tomtom:long_query_result_depends_on_threads_or_co_queries:nondefault_bins", dict(case, query_position=pos),
+                                      expected=alone_kw[i][0][:4], observed=got[:, pos][0][:4])
+                        break
+    # queries of different storage types in one call (one-hot seqlets as int8, PWMs as float64 / float32, tensors and arrays)
+    oh = lambda L, k: numpy.eye(4, dtype=numpy.int8)[[(i * (k + 1) + k) % 4 for i in range(L)]].T.copy()
+    Qm = [oh(8, 0), pat(12, 1), pat(10, 2).astype(numpy.float32), torch.from_numpy(oh(6, 3)), torch.from_numpy(pat(5, 4))]
+    names = ["int8 one-hot L8", "float64 pwm L12", "float32 pwm L10", "int8 tensor one-hot L6", "float64 tensor pwm L5"]
+    # reference: each query alone, in double precision (float32 input is exactly representable in float64)
+    alone_m = [torch.stack(list(TT.tomtom([numpy.asarray(Q).astype(numpy.float64)], Ts, n_jobs=1))).numpy()[:, 0] for Q in Qm]
+    for subset in ([0, 1, 2, 3, 4], [1, 0], [2, 3, 1], [4, 3, 2, 1, 0], [0, 3], [3, 1], [2, 1]):
+        st, res = call(TT.tomtom, [Qm[i] for i in subset], Ts, n_jobs=3)
+        rec.case(1, 1)
+        rec.count("traces_validated_against_impl")
+        case = dict(fn="tomtom", queries=[names[i] for i in subset], n_jobs=3, generator="mixed storage types")
+        if st != "ok":
+            rec.violation("tomtom:raises:mixed_storage_types", case, observed=res)
+            continue
+        got = torch.stack([r.double() for r in res]).numpy()
+        for pos, i in enumerate(subset):
+            okp = numpy.allclose(got[0, pos], alone_m[i][0], rtol=1e-6, atol=1e-12) and (got[2:, pos] == alone_m[i][2:]).all()
+            if not okp:
+                rec.violation("tomtom:result_depends_on_co_query_storage_type", dict(case, query_position=pos),
+                              expected=alone_m[i][0][:4], observed=got[0, pos][:4])
+                break
     numba.set_num_threads(16)
-    rec.sample(dict(kind="long", query_lengths=qlens, n_jobs=[1, 2, 5, 16]))
+    rec.sample(dict(kind="long", query_lengths=qlens, n_jobs=[1, 2, 5, 16], nondefault=["n_median_bins 50/7/300", "n_score_bins 50/200", "no hashing"],
+                    mixed_storage=names))
 
 
 def run_nearest(rec, tier, seed):
